@@ -313,6 +313,7 @@ class Tracer:
         self.concretized = 0
         self.max_decisions = max_decisions
         self.max_degree = 6
+        self.cvc5_stats = {"queries": 0, "agree": 0, "disagree": 0, "unknown": 0, "errors": 0, "time": 0.0, "samples": []}
         self.taint_log = []
         self.notes = []
 
@@ -497,7 +498,43 @@ class Tracer:
         self.tsolve += time.time() - t0
         r = str(r)
         self.q_by_answer[r] = self.q_by_answer.get(r, 0) + 1
+        if CVC5_RECHECK and r in ("sat", "unsat"):
+            self.cvc5_recheck(s, r)
         return r, m
+
+    def cvc5_recheck(self, solver, z3_answer, timeout_ms=5000):
+        """second opinion (thorough tier): the same assertions re-decided by cvc5 1.4 from the SMT-LIB2 dump"""
+        t0 = time.time()
+        try:
+            import cvc5
+
+            slv = cvc5.Solver()
+            slv.setOption("tlimit-per", str(timeout_ms))
+            p = cvc5.InputParser(slv)
+            p.setStringInput(cvc5.InputLanguage.SMT_LIB_2_6, "(set-logic ALL)\n" + solver.to_smt2(), "q")
+            sm = p.getSymbolManager()
+            ans = None
+            while True:
+                cmd = p.nextCommand()
+                if cmd.isNull():
+                    break
+                out = cmd.invoke(slv, sm)
+                if "sat" in str(out) and "(" not in str(out):
+                    ans = str(out).strip()
+            st = self.cvc5_stats
+            st["queries"] += 1
+            st["time"] += time.time() - t0
+            if ans in ("sat", "unsat"):
+                if ans == z3_answer:
+                    st["agree"] += 1
+                else:
+                    st["disagree"] += 1
+                    st["samples"].append(solver.to_smt2()[:2000])
+            else:
+                st["unknown"] += 1
+        except Exception as e:  # noqa
+            self.cvc5_stats["errors"] += 1
+            self.cvc5_stats["last_error"] = repr(e)[:200]
 
     def check_pc(self, formula, timeout_ms=20000):
         """decide PC & formula; tries the linear weakening of PC first (unsat there => unsat)"""
@@ -533,6 +570,10 @@ def _sqrt_lo(r: Fraction) -> Fraction:
     assert s * s <= r
     return s
 
+
+import os as _os
+
+CVC5_RECHECK = _os.environ.get("SYMX_CVC5") == "1"
 
 TR: Tracer = None
 
